@@ -22,6 +22,8 @@ import (
 	"pgregory.net/rapid"
 
 	ammtypes "github.com/elys-network/elys/x/amm/types"
+	aptypes2 "github.com/elys-network/elys/x/assetprofile/types"
+	tokenomicstypes "github.com/elys-network/elys/x/tokenomics/types"
 	lptypes "github.com/elys-network/elys/x/leveragelp/types"
 	ptypes "github.com/elys-network/elys/x/parameter/types"
 	perptypes "github.com/elys-network/elys/x/perpetual/types"
@@ -311,6 +313,7 @@ type c17Case struct {
 	URL      string          `json:"type_url"`
 	Msg      json.RawMessage `json:"msg"`
 	What     string          `json:"violation,omitempty"`
+	Plant    string          `json:"planted_record_authority,omitempty"` // the addressed record exists with this stored authority
 }
 
 func TestC17(t *testing.T) {
@@ -342,16 +345,21 @@ func TestC17(t *testing.T) {
 		if err := w.App.AppCodec().UnmarshalInterfaceJSON(c.Msg, &msg); err != nil {
 			t.Fatalf("harness: %v", err)
 		}
-		if what := mustReject(w, caseCtx(w), msg); what != "" {
+		rctx := caseCtx(w)
+		if c.Plant != "" {
+			plantStoredAuthority(w, rctx, msg, c.Plant)
+		}
+		if what := mustReject(w, rctx, msg); what != "" {
 			t.Fatalf("VIOLATION C17 (replay): %s", what)
 		}
 		return
 	}
 
+	curPlant := ""
 	fail := func(rt *rapid.T, msg sdk.Msg, what string) {
 		js, _ := w.App.AppCodec().MarshalInterfaceJSON(msg)
 		if p := os.Getenv("VERIF_FAILTRACE"); p != "" {
-			bz, _ := json.MarshalIndent(c17Case{Property: "C17", Kind: "c17-case", URL: sdk.MsgTypeURL(msg), Msg: js, What: what}, "", " ")
+			bz, _ := json.MarshalIndent(c17Case{Property: "C17", Kind: "c17-case", URL: sdk.MsgTypeURL(msg), Msg: js, What: what, Plant: curPlant}, "", " ")
 			_ = os.WriteFile(p, bz, 0o644)
 		}
 		rt.Fatalf("VIOLATION C17: %s\nmessage: %s", what, js)
@@ -371,6 +379,7 @@ func TestC17(t *testing.T) {
 
 	rapid.Check(t, func(rt *rapid.T) {
 		ctx := caseCtx(w)
+		curPlant = ""
 		if UniformDraw(rt, "class", 3) > 0 {
 			// ---- governance class
 			g := govs[UniformDraw(rt, "type", len(govs))]
@@ -399,6 +408,16 @@ func TestC17(t *testing.T) {
 				auth = gov + "x"
 			}
 			rv.FieldByName(g.AuthField).SetString(auth)
+			// some handlers compare the authority with one STORED in the record they change (asset profile
+			// entries, airdrops, inflation schedules – genesis may hold such records with any authority, airdrops
+			// by design name the claimant). Half of the time the state holds exactly the record the message
+			// addresses, owned by the sender: the message must still be refused.
+			if a, aerr := sdk.AccAddressFromBech32(auth); aerr == nil && len(a) > 0 && UniformDraw(rt, "plant", 2) == 1 {
+				if plantStoredAuthority(w, ctx, msg, auth) {
+					kind += "+owns-stored-record"
+					curPlant = auth
+				}
+			}
 			validBasic := safeValidateBasic(msg)
 			// the signer the ante handler would demand is exactly the authority field
 			if signers, _, err := w.App.AppCodec().GetMsgV1Signers(msg); err == nil && len(signers) == 1 {
@@ -455,6 +474,30 @@ func TestC17(t *testing.T) {
 		sum.record(fmt.Sprintf("%s|%s", sdk.MsgTypeURL(msg), att), validBasic, []string{"owner/" + sdk.MsgTypeURL(msg)}, map[string]any{"type": sdk.MsgTypeURL(msg), "attacker": w.nameOf(att), "validate_basic_ok": validBasic})
 	})
 	_ = ammtypes.ModuleName
+}
+
+// plantStoredAuthority writes, into the case's branch of the state, the record a message addresses with the
+// given address as its stored authority. Reports whether the message type has such a record.
+func plantStoredAuthority(w *World, ctx sdk.Context, msg sdk.Msg, auth string) bool {
+	switch m := msg.(type) {
+	case *tokenomicstypes.MsgUpdateAirdrop:
+		w.App.TokenomicsKeeper.SetAirdrop(ctx, tokenomicstypes.Airdrop{Authority: auth, Intent: m.Intent, Amount: 1000, Expiry: uint64(ctx.BlockTime().Unix()) + 100000})
+	case *tokenomicstypes.MsgDeleteAirdrop:
+		w.App.TokenomicsKeeper.SetAirdrop(ctx, tokenomicstypes.Airdrop{Authority: auth, Intent: m.Intent, Amount: 1000, Expiry: uint64(ctx.BlockTime().Unix()) + 100000})
+	case *tokenomicstypes.MsgUpdateTimeBasedInflation:
+		w.App.TokenomicsKeeper.SetTimeBasedInflation(ctx, tokenomicstypes.TimeBasedInflation{Authority: auth, StartBlockHeight: m.StartBlockHeight, EndBlockHeight: m.EndBlockHeight, Description: "planted",
+			Inflation: &tokenomicstypes.InflationEntry{LmRewards: 1, IcsStakingRewards: 1, CommunityFund: 1, StrategicReserve: 1, TeamTokensVested: 1}})
+	case *tokenomicstypes.MsgDeleteTimeBasedInflation:
+		w.App.TokenomicsKeeper.SetTimeBasedInflation(ctx, tokenomicstypes.TimeBasedInflation{Authority: auth, StartBlockHeight: m.StartBlockHeight, EndBlockHeight: m.EndBlockHeight, Description: "planted",
+			Inflation: &tokenomicstypes.InflationEntry{LmRewards: 1, IcsStakingRewards: 1, CommunityFund: 1, StrategicReserve: 1, TeamTokensVested: 1}})
+	case *aptypes2.MsgUpdateEntry:
+		w.App.AssetprofileKeeper.SetEntry(ctx, aptypes2.Entry{Authority: auth, BaseDenom: m.BaseDenom, Denom: m.BaseDenom, Decimals: 6, DisplayName: "PLANTED"})
+	case *aptypes2.MsgDeleteEntry:
+		w.App.AssetprofileKeeper.SetEntry(ctx, aptypes2.Entry{Authority: auth, BaseDenom: m.BaseDenom, Denom: m.BaseDenom, Decimals: 6, DisplayName: "PLANTED"})
+	default:
+		return false
+	}
+	return true
 }
 
 // execHandler calls the registered handler directly (no ValidateBasic) on a cache context.
